@@ -59,7 +59,8 @@ def plan(tier, seed):
 def floors(tier):
     return {'evaluations': 40000, 'distinct_nontrivial': 15000, 'tolerant_parses': 40000,
             'strict_equal_compared': 10000, 'prefix_rule_checked': 8000, 'recovery_exercised': 15000,
-            'text_retention_checked': 20000, 'histkeys:truncation_tail': 9}
+            'text_retention_checked': 20000, 'histkeys:truncation_tail': 9,
+            'custom_context_soups': 500, 'parser_class_context_soups': 1000}
 
 
 def setup(rec):
@@ -210,6 +211,21 @@ def run_shard(desc, rec):
             if i % 500 == 0:
                 rec.sample(s)
             check_case({'s': s}, rec)
+        # soups over generated custom contexts (every standard argument type) and over a context using the argument
+        # parser classes that have no argument-string spelling
+        for j in range(max(1, desc['count'] // 400)):
+            vseed = [rng.randrange(1 << 30), j]
+            vocab, db = work.vocab_from_seed(vseed)
+            if not vocab.unknown_ok:
+                continue
+            for s in work.custom_soups(rng, vocab, 100):
+                rec.case()
+                rec.monitor('custom_context_soups')
+                check_case({'s': s, 'ctx': {'vocab': 'custom', 'vseed': vseed}}, rec)
+        for s in work.nlargs_strings(rng, max(200, desc['count'] // 4)):
+            rec.case()
+            rec.monitor('parser_class_context_soups')
+            check_case({'s': s, 'ctx': {'vocab': 'nlargs'}}, rec)
     elif kind == 'truncate':
         from ..gen import doc as D
         tails = ['', '\\', '}', '$', '\\begin', '{', ']', '\\end{x}', '%']
